@@ -6,7 +6,9 @@ Inductive site_class :=
 | SIfNotDry         (* inside the body of `if ... && !x.DryRun && ... {` *)
 | SAfterDryReturn   (* after `if x.DryRun || ... { return }` in an enclosing block *)
 | SAfterVarReturn   (* after `v := !x.DryRun && ...; if !v { return }` *)
-| SWrapper          (* inside the prepared-statement ConnPool wrappers (reached through a guarded call only) *)
+| SCallerGuard      (* in an unexported helper that is only ever entered through calls standing behind such a test
+                       (in the caller, or in the caller's callers ...) and never used as a value *)
+| SWrapper          (* inside a ConnPool implementation forwarding the call it received (prepared-statement wrappers) *)
 | SUnknown.         (* the extractor could not find a dominating test *)
 
 (* how an occurrence of the selector `.DryRun` is used *)
